@@ -19,7 +19,7 @@ func init() {
 			"(5) MonoNode's epoch derives from time.Now() through Add only (monotonic reading preserved) and Generate reads the clock with time.Since(epoch); (6) NewNode seeds time/step with IDFields(last id). " +
 			"NOT decided: uniqueness across nodes, overflow of the timestamp field, the operating system's monotonic-clock contract (assumed for MonoNode: time.Since(epoch) never decreases).",
 		Assumptions: []string{"invariant 0 <= step <= stepMax (established by obligation 4)", "MonoNode: the monotonic clock never decreases"},
-		Floors:      map[string]int{"C06.guarded-by": 4, "C06.progress": 4, "C06.not-older-than-clock": 1, "C06.step-discipline": 2, "C06.node-discipline": 2, "C06.compose": 2, "C06.mono-source": 2, "C06.restart-seed": 4},
+		Floors:      map[string]int{"C06.guarded-by": 4, "C06.progress": 4, "C06.not-older-than-clock": 3, "C06.step-discipline": 2, "C06.node-discipline": 2, "C06.compose": 2, "C06.mono-source": 2, "C06.restart-seed": 4},
 		Run:         runC06,
 	})
 }
@@ -339,6 +339,43 @@ func (c *Ctx) checkSnowflakeCtors() {
 			c.undecided("C06.node-discipline", cons, fn.Pos(), "no store to node found")
 		}
 	}
+	// (5b) the epoch a node works with is the configured one at the time the node is made: computed in the
+	// constructor from the package's epoch setting, not taken from something computed once for the process (a
+	// sync.Once or a package-level cache keeps the first node's epoch: after Setup(UseEpoch(..)) a new node would
+	// compose ids whose timestamps do not match its clock readings)
+	for _, sp := range [][2]string{{"NewNode", "HardNode"}, {"NewMonoNode", "MonoNode"}} {
+		fn := c.mustFn(rel, sp[0])
+		ef := c.field(rel, sp[1], "epoch")
+		if fn == nil || ef == nil {
+			continue
+		}
+		samePkg := func(callee *ssa.Function, depth int) bool { return depth <= 3 && callee.Pkg == fn.Pkg }
+		traces, _ := c.Trace(fn, TraceConfig{Inline: samePkg})
+		ok, n := true, 0
+		for _, t := range traces {
+			for i, e := range t.Events {
+				if (e.Kind == EvCall || e.Kind == EvEnter) && e.callName() == "(*sync.Once).Do" && ok {
+					ok = false
+					c.violated("C06.not-older-than-clock", "snowflake."+sp[0]+" epoch", e.Pos, "the constructor takes part of its configuration from a sync.Once: the value is the one of the first node made in the process, not the one configured now", c.witness(t, i)...)
+				}
+				if e.Kind == EvStore && e.Addr.isFieldAddrOf(ef) {
+					n++
+					fromSetting := derivesFrom(t, e.Val, 0, func(x *Sym) bool {
+						return x.Kind == KInit && x.Args[0].Kind == KGlobal && x.Args[0].Ref.(*ssa.Global).Name() == "_epoch"
+					})
+					if !fromSetting && ok {
+						ok = false
+						c.violated("C06.not-older-than-clock", "snowflake."+sp[0]+" epoch", e.Pos, "the node's epoch is not computed from the package's epoch setting in the constructor: "+c.short(e.Val.Key()), c.witness(t, i)...)
+					}
+				}
+			}
+		}
+		if ok && n > 0 {
+			c.holds("C06.not-older-than-clock", "snowflake."+sp[0]+" epoch", fn.Pos(), "epoch computed from the current setting")
+		} else if ok {
+			c.undecided("C06.not-older-than-clock", "snowflake."+sp[0]+" epoch", fn.Pos(), "no store of the node's epoch found")
+		}
+	}
 	// (6) NewNode seeds time and step with IDFields(min)
 	if fn := c.mustFn(rel, "NewNode"); fn != nil {
 		tm := c.field(rel, "HardNode", "time")
@@ -554,4 +591,45 @@ func (c *Ctx) checkNano() {
 			c.holds("C06.progress", name, fn.Pos(), fmt.Sprintf("%d paths: current' = max(ts, current+1) > current, result = current'", n))
 		}
 	}
+}
+
+// derivesFrom: some leaf that s is computed from satisfies pred; results of opaque calls are followed back into
+// the arguments (and receiver) of the call that produced them.
+func derivesFrom(t *Trace, s *Sym, depth int, pred func(*Sym) bool) bool {
+	if s == nil || depth > 8 {
+		return false
+	}
+	found := false
+	s.walk(func(x *Sym) {
+		if found {
+			return
+		}
+		if pred(x) {
+			found = true
+			return
+		}
+		if x.Kind == KFresh {
+			for _, e := range t.Events {
+				if e.Kind != EvCall || e.Res == nil {
+					continue
+				}
+				hit := e.Res.Key() == x.Key()
+				if !hit && e.Res.Kind == KTuple {
+					for _, r := range e.Res.Args {
+						if r != nil && r.Key() == x.Key() {
+							hit = true
+						}
+					}
+				}
+				if hit {
+					for _, a := range e.Args {
+						if derivesFrom(t, a, depth+1, pred) {
+							found = true
+						}
+					}
+				}
+			}
+		}
+	})
+	return found
 }
